@@ -43,11 +43,18 @@ def txEdits (j : Journal) (content : Bytes) (formats : Formats) (o : Options) (s
     formatTransaction tx content (splitLines content) (some formats) (effGlobalCol j o) (effIndent o)
       o.alignAmounts skip
 
+/-- The formats in force: the given map, or (Go's nil map) those declared in the journal. -/
+def effFormats (j : Journal) (formats : Option Formats) : Formats :=
+  match formats with
+  | some m => m
+  | none => extractCommodityFormats j
+
 theorem formatDocument_eq (j : Journal) (content : Bytes) (formats : Option Formats) (o : Options)
     (skip : List Int) :
     formatDocument j content formats o skip =
-      txEdits j content (match formats with | some m => m | none => extractCommodityFormats j) o skip ++
-        trimTrailingSpacesEdits (splitLines content) ((allPostings j).map postingLine) skip := rfl
+      txEdits j content (effFormats j formats) o skip ++
+        trimTrailingSpacesEdits (splitLines content) ((allPostings j).map postingLine) skip := by
+  cases formats <;> rfl
 
 /-- `es` are posting edits for the postings `ps`, one each, in order. -/
 inductive EditsFor (lines : List Bytes) : List Edit → List Posting → Prop
@@ -77,6 +84,23 @@ theorem txEdits_shape (j : Journal) (content : Bytes) (formats : Formats) (o : O
     | nil => exact EditsFor.nil
     | cons p ps ihp => exact EditsFor.cons p _ ihp
 
+/-- Every posting edit sits on the line of a kept posting. -/
+theorem editsFor_line (lines : List Bytes) (hs : SmallLines lines) (es : List Edit) (ps : List Posting)
+    (hr : EditsFor lines es ps)
+    (hl : ∀ p ∈ ps, 1 ≤ p.range.start.line ∧ p.range.start.line ≤ lines.length) :
+    ∀ e ∈ es, ∃ p ∈ ps, (e.sl.toNat : Int) = postingLine p := by
+  induction hr with
+  | nil => intro e he; cases he
+  | cons p t _ ih =>
+    intro e he
+    rcases List.mem_cons.mp he with rfl | he
+    · obtain ⟨_, hline⟩ := postingEdit_ok lines hs p t (hl p (by simp)).1 (hl p (by simp)).2
+      refine ⟨p, by simp, ?_⟩
+      have := (hl p (by simp)).1
+      rw [hline]; unfold postingLine; omega
+    · obtain ⟨q, hq, h⟩ := ih (fun q hq => hl q (by simp [hq])) e he
+      exact ⟨q, by simp [hq], h⟩
+
 theorem nodup_map_pred (l : List Nat) (h1 : ∀ x ∈ l, 1 ≤ x) (h : l.Nodup) : (l.map (· - 1)).Nodup := by
   induction l with
   | nil => simp
@@ -98,7 +122,7 @@ theorem edits_wellformed (j : Journal) (errs : List ParseError) (doc : Bytes)
   have hs := smallLines_of_doc doc hsize
   unfold formatText
   rw [formatDocument_eq]
-  generalize (match formats with | some m => m | none => extractCommodityFormats j) = fm
+  generalize effFormats j formats = fm
   generalize hskip : (errs.map fun e => (e.pos.line : Int) - 1) = skip
   have hshape := txEdits_shape j doc fm o skip
   have hsub := kept_sublist j skip
@@ -161,7 +185,7 @@ theorem nonposting_lines (j : Journal) (errs : List ParseError) (doc : Bytes)
   have hs := smallLines_of_doc doc hsize
   unfold formatText
   rw [formatDocument_eq]
-  generalize (match formats with | some m => m | none => extractCommodityFormats j) = fm
+  generalize effFormats j formats = fm
   generalize (errs.map fun e => (e.pos.line : Int) - 1) = skip
   intro e he hnp
   rcases List.mem_append.mp he with he | he
